@@ -3,6 +3,7 @@
 Everything here is classical static analysis over the resolved MIR: CFG,
 dominators, reachability, reaching-definition expression recovery, edge
 conditions, call graph.  Nothing executes log4rs code."""
+import os
 import re
 from collections import defaultdict, deque
 
@@ -198,7 +199,10 @@ def show(e, depth=6):
     if k in ("tuple", "array"):
         return "(%s)" % ", ".join(show(v, d) for v in e[1])
     if k == "phi":
-        return "φ(%s)" % " | ".join(show(v, d) for v in e[1])
+        alts = [show(v, d) for v in e[1]]
+        if not os.environ.get("L4SA_PHI_UNSORTED"):
+            alts = sorted(set(alts))   # the order of a join's alternatives is not a property of the program
+        return "φ(%s)" % " | ".join(alts)
     if k == "closure":
         return "closure %s[%s]" % (short(e[1]), ", ".join(show(v, d) for v in e[2]))
     if k == "repeat":
@@ -1302,8 +1306,10 @@ def _renum_rv(rv, lo):
     return rv
 
 
-def _renum_block(b, lo, bo, ret_to, dest):
+def _renum_block(b, lo, bo, ret_to, dest, origin=None):
     nb = {"id": b["id"] + bo, "stmts": []}
+    if b.get("origin") or origin:
+        nb["origin"] = b.get("origin") or origin
     if b.get("cleanup"):
         nb["cleanup"] = True
     for s in b["stmts"]:
@@ -1406,7 +1412,7 @@ def inline_private_helpers(prog, fn, wanted=None, depth=2, max_blocks=120, only=
         nb["term"] = {"k": "goto", "target": bo, "at": t.get("at")}
         blocks[bi] = nb
         for cb in cf.blocks:
-            blocks.append(_renum_block(cb, lo, bo, t.get("target"), t["dest"]))
+            blocks.append(_renum_block(cb, lo, bo, t.get("target"), t["dest"], origin=cf.path))
         inlined.append(cf.path)
         for j in range(bo, len(blocks)):
             work.append((j, stack + (cf.path,), dep + 1))
